@@ -296,6 +296,11 @@ def die_at_start(path):
         os._exit(3)
 
 
+def exit_after(d, code):
+    time.sleep(d)
+    os._exit(code)
+
+
 def pid_task(x, d=0.02):
     time.sleep(d)
     return (os.getpid(), x)
